@@ -782,7 +782,15 @@ where
     T: DeserializeOwned + garde::Validate + 'a,
     <T as garde::Validate>::Context: Default,
 {
-    read_with_options_valid(reader, Default::default())
+    // Like `read`: no cap on the total input size, so that long-lived streams can be read.
+    read_with_options_valid(
+        reader,
+        crate::options! {
+            budget: crate::budget! {
+                max_reader_input_bytes: None,
+            },
+        },
+    )
 }
 
 /// Create an iterator over validated YAML documents from a reader with configurable options.
@@ -1166,7 +1174,15 @@ where
     R: Read + 'a,
     T: DeserializeOwned + ValidatorValidate + 'a,
 {
-    read_with_options_validate(reader, Default::default())
+    // Like `read`: no cap on the total input size, so that long-lived streams can be read.
+    read_with_options_validate(
+        reader,
+        crate::options! {
+            budget: crate::budget! {
+                max_reader_input_bytes: None,
+            },
+        },
+    )
 }
 
 /// Create an iterator over validated YAML documents from a reader with configurable options.
